@@ -119,12 +119,30 @@ func (c *ClientConn) closeWithErrorWithoutLock(err error) {
 	}
 }
 
+// closeByConn closes c because conn was closed, unless c has already
+// replaced conn: the end of an old connection must not fail the requests
+// that are waiting on its successor.
+//
 //go:norace
-func (c *ClientConn) onResponse(res *http.Response, err error) {
+func (c *ClientConn) closeByConn(conn net.Conn, err error) {
+	c.mux.Lock()
+	defer c.mux.Unlock()
+	if !c.closed && c.conn == conn {
+		c.closed = true
+		c.closeWithErrorWithoutLock(err)
+	}
+}
+
+// onResponse handles a response that was read from conn. A response of a
+// connection that c has already replaced belongs to none of the waiting
+// requests and is dropped.
+//
+//go:norace
+func (c *ClientConn) onResponse(conn net.Conn, res *http.Response, err error) {
 	c.mux.Lock()
 	defer c.mux.Unlock()
 
-	if !c.closed && len(c.handlers) > 0 {
+	if !c.closed && c.conn == conn && len(c.handlers) > 0 {
 		head := c.handlers[0]
 		head.h(res, c.conn, err)
 
@@ -290,10 +308,12 @@ func (c *ClientConn) Do(req *http.Request, handler func(res *http.Response, conn
 			engine.mux.Unlock()
 
 			c.conn = nbc
-			processor := NewClientProcessor(c, c.onResponse)
+			processor := NewClientProcessor(c, func(res *http.Response, err error) {
+				c.onResponse(nbc, res, err)
+			})
 			parser := NewParser(nbc, engine, processor, true, nbc.Execute)
 			parser.OnClose(func(p *Parser, err error) {
-				c.CloseWithError(err)
+				c.closeByConn(nbc, err)
 			})
 			nbc.SetSession(parser)
 
@@ -343,12 +363,14 @@ func (c *ClientConn) Do(req *http.Request, handler func(res *http.Response, conn
 
 			nbhttpConn := &Conn{Conn: tlsConn}
 			c.conn = nbhttpConn
-			processor := NewClientProcessor(c, c.onResponse)
+			processor := NewClientProcessor(c, func(res *http.Response, err error) {
+				c.onResponse(nbhttpConn, res, err)
+			})
 			parser := NewParser(nbhttpConn, engine, processor, true, nbc.Execute)
 			parser.Conn = nbhttpConn
 			parser.Engine = engine
 			parser.OnClose(func(p *Parser, err error) {
-				c.CloseWithError(err)
+				c.closeByConn(nbhttpConn, err)
 			})
 			nbc.SetSession(parser)
 
